@@ -93,3 +93,34 @@ def gen_env(r, width):
         return {"tty_fds": [], "ctty": True, "cols": width}
     fds = r.pick([[2], [2], [0, 1, 2], [0], [1], [1, 2], [0, 2]])
     return {"tty_fds": fds, "ctty": r.chance(0.5), "cols": width}
+
+
+class _OsWithoutCwd(object):
+    """``os`` as a process sees it whose working directory was removed under it: ``getcwd`` fails."""
+
+    def __init__(self, real, counter):
+        self._real = real
+        self._counter = counter
+
+    def getcwd(self):
+        self._counter[0] += 1
+        raise FileNotFoundError(2, "No such file or directory")
+
+    def __getattr__(self, name):
+        return getattr(self._real, name)
+
+
+@contextlib.contextmanager
+def cwd_removed(module, enabled=True):
+    """While active, ``module.os.getcwd()`` raises FileNotFoundError (the directory the program was
+    started in no longer exists).  Yields a one-element list counting how often that was met."""
+    hits = [0]
+    if not enabled:
+        yield hits
+        return
+    old = module.os
+    module.os = _OsWithoutCwd(old, hits)
+    try:
+        yield hits
+    finally:
+        module.os = old
